@@ -461,7 +461,7 @@ def _eos_wide_case(draw, tier):
     }
 
 
-@subcheck("C01", "eos_padded_wide", lambda tier: _eos_wide_case(tier), 60, 1500,
+@subcheck("C01", "eos_padded_wide", lambda tier: _eos_wide_case(tier), 60, 400,
           doc="transcripts of <= 6 tokens in tensors 257..530 (thorough ..2049) wide, padded with copies of eos (hundreds of eos per "
               "row): same DP oracle on the tokens before the first eos")
 def _eos_padded_wide(case):
